@@ -87,3 +87,28 @@ Inductive lrule :=
 | LRExpMultiply (v : lvex)               (* self.exponent * MultiplyOperator(v, domain=.., range=..) *)
 | LRInner (n : lnex) (v : lvex).         (* if n == 0: raise ValueError ; InnerProductOperator(v) *)
 Inductive lclass := KPower | KNorm | KDist | KConstant | KRealPart | KImagPart | KBase.
+
+(* ---------------------------------------------------------------------------
+   Syntax of the REGENERATED gradient rules of the functional arithmetic
+   (Gen/Gradients.v, emitted by translate/gradients.py from
+   odl/solvers/functional/functional.py): each `gradient` property as an
+   operator expression over the fields of `self`, resp. the `_call(self, x)` of
+   the locally defined gradient class as a value expression. *)
+Inductive gsub := GLeft | GRight | GFunctional | GOperator | GDividend | GDivisor.
+Inductive kex :=                        (* scalar factors in _call bodies *)
+| KVal (s : gsub)                       (* func.<s>(x) *)
+| KInvVal (s : gsub)                    (* 1 / <s>x *)
+| KNegOverSq (a b : gsub).              (* -<a>x / <b>x ** 2 *)
+Inductive gop :=
+| GGrad (s : gsub)                      (* self.<s>.gradient  (as an operator; in a _call: .gradient(x)) *)
+| GScalL (e : gop)                      (* self.scalar * e *)
+| GScalR (e : gop)                      (* e * self.scalar *)
+| GVecL (e : gop)                       (* self.vector * e *)
+| GVecR (e : gop)                       (* e * self.vector *)
+| GAdd (a b : gop)                      (* a + b *)
+| GShift (e : gop)                      (* e * (IdentityOperator(self.domain) - self.translation) *)
+| GTwoQuadId                            (* 2 * self.quadratic_coeff * IdentityOperator(self.domain) *)
+| GConstLinTerm                         (* ConstantOperator(self.linear_term) *)
+| GKMul (k : kex) (e : gop)             (* k * e   (value level) *)
+| GAdjDeriv (f op : gsub).              (* op.derivative(x).adjoint(func.gradient(op(x))) *)
+Inductive fclass := FCLScal | FCRScal | FCComp | FCRVec | FCSum | FCTransl | FCQP | FCProd | FCQuot.
